@@ -24,7 +24,8 @@ LEVEL_NOTE = ("Coq kernel; extraction; the MAIL patterns (as RE2 programs), the 
               "STARTTLS IS in the model (Proofs/SmtpTls.v, SmtpTlsWire.v): the session carries the tls flag, STARTTLS is answered 454 / 220 as the code does, after 220 the "
               "session is in GREET again (after_starttls_greeting_is_due), TLS is never negotiated twice nor dropped (starttls_once, tls_never_dropped), EHLO offers it exactly "
               "while it can be started, and plaintext pipelined behind an accepted STARTTLS line is never executed (injected_plaintext_is_never_executed, over run_stream_tls); "
-              "the TLS record layer and handshake are the transport's and not modelled (TLS is transparent to the lines); the asmtls stream runs the dialogues through a real TLS listener (SMTP_FORCETLS); the accept loops are modelled "
+              "the TLS record layer and handshake are the transport's and not modelled (TLS is transparent to the lines; a failing handshake, and plaintext behind STARTTLS that was not yet in the "
+              "session's 4 KiB read buffer when the connection was wrapped - it reaches the handshake as garbage -, are outside the model); the asmtls stream runs the dialogues through a real TLS listener (SMTP_FORCETLS); the accept loops are modelled "
               "under C19 (LifecycleAccept), here the asmtls stream checks that peers which connect and stay silent do not keep another client from being served; "
               "panics inside third-party parsers are searched for by the garbage stream, not proved absent")
 DESIGN_REF = "DESIGN.md §4 C03"
